@@ -612,7 +612,8 @@ def run_one(cfg, decisions=None, keep_events=False):
             if a.exc is not None:
                 exempt = (a.name in world.cc_failed_for and a.exc[0] == "RuntimeError"
                           and "compile failed" in a.exc[1])
-                if a.name in world.io_failed_for and a.exc[0] == "OSError" and "No space left" in a.exc[1]:
+                if a.name in world.io_failed_for and a.exc[0] in ("OSError", "PermissionError") and \
+                        ("No space left" in a.exc[1] or "Permission denied (simulated)" in a.exc[1]):
                     exempt = True      # the process whose own system call failed may report it
                     world.probe("own_io_failure_reported")
                 elif exempt:
@@ -753,7 +754,7 @@ def gen_config(run_seed, tier):
             if kind == "io_fail":
                 cfg.setdefault("io_faults", []).append(
                     {"target": "P%d" % f.randrange(n),
-                     "kind": f.choice(["enospc_source_write", "enospc_mkdtemp"])})
+                     "kind": f.choice(["enospc_source_write", "enospc_mkdtemp", "eacces_replace"])})
             elif kind == "cc_fail":
                 idx = f.randrange(0, min(n, 3))
                 k = len(plans[idx]["cuts"]) + 1
